@@ -398,6 +398,14 @@ func (t *tr) binop(op token.Token, a, b Term, resT types.Type, pos token.Pos, co
 		return and(a, b)
 	case token.LOR:
 		return or(a, b)
+	case token.EQL, token.NEQ:
+		if a.Sort == SSlice && b.Sort == SInt && b.S == "0" {
+			a = slArr(a)
+		} else if b.Sort == SSlice && a.Sort == SInt && a.S == "0" {
+			b = slArr(b)
+		}
+	}
+	switch op {
 	case token.EQL:
 		if a.Sort != b.Sort {
 			t.errorf(pos, "== on different sorts %s / %s (%s, %s)", a.Sort, b.Sort, a.S, b.S)
